@@ -191,6 +191,23 @@ fn decode(t: &mut Tape) -> CbCase {
             7 => {
                 // non-ASCII / odd domains in options
                 let d = t.choose(&["bücher.de", "пример.рф", "~bücher.de", "a.com|~b.com", "ex ample.com", "xn--", "ü", "a.com|ü.de", "~a.com|~ü.de", "A.COM", "-a-.com", "a..b", "😀.com", "\u{200b}.com", "a\u{fffd}.com", "\u{fffd}", "a.com|\u{fffd}b.com", "xn--a\u{fffd}", "é\u{0301}\u{0301}.com", "aaaaaaaaaaaaaaaaaaaaaaaaaaaaaaaaaaaaaaaaaaaaaaaaaaaaaaaaaaaaaaaaaaaaaaaaü.com", "a\u{202e}b.com", "\u{0}.com", "ß.de", "ǆ.com"]);
+                let mut d = d.to_string();
+                if t.chance(1, 3) {
+                    // labels over characters whose case mappings change UTF-8 length or expand
+                    d = String::new();
+                    for k in 0..(1 + t.pick(3)) {
+                        if k > 0 {
+                            d.push('|');
+                        }
+                        if t.chance(1, 4) {
+                            d.push('~');
+                        }
+                        for _ in 0..(1 + t.pick(5)) {
+                            d.push(t.choose(&['a', 'B', 'x', 'ü', 'Ü', '\u{212A}', '\u{0130}', '\u{1E9E}', '\u{023A}', '\u{2126}', 'ς', 'Σ', '\u{01C5}', 'ﬁ', 'İ', 'ı', '9']));
+                        }
+                        d.push_str(t.choose(&[".com", ".de", ".example", ""]));
+                    }
+                }
                 let key = t.choose(&["domain", "from"]);
                 format!("{}${}={}{}", t.choose(&["||ads.example.com^", "/banner/", "|https://x.com/a", "ad$x"]), key, d, t.choose(&["", ",script", ",third-party", ",~image", ",match-case"]))
             }
@@ -229,7 +246,7 @@ fn decode(t: &mut Tape) -> CbCase {
 }
 
 pub fn check(ctx: &mut Ctx) {
-    ctx.rule = "debug-mode FilterSets of 1-12 lines (1 in 25: 40-540 lines) from the network and cosmetic generators plus pools biased to: non-ASCII / malformed / mixed if+unless domains in domain= and from=, '$' inside patterns and regexes, scheme-only patterns with negated types, hostname wildcards, every resource-type subset (bit pattern), match-case, entity / negated / regex / non-ASCII cosmetic locations, rules the exporter must refuse (redirect, csp, generichide, removeparam, badfilter, full regex). Validity predicates on the output: no panic; all strings ASCII; url-filter accepted by a recogniser of Safari's regex subset; never both if-domain and unless-domain; no non-ignore rule after an ignore-previous-rules rule; filters_used == the lines (network first, then cosmetic, in order) whose individual conversion succeeds, and the number of emitted rules equals the sum of their outputs (+1 first-party-document rule iff a network rule converted); inclusion: for patterns without * and ^, every generated URL the rule matches (5 request types x 2 sources) is matched by the emitted url-filter. Non-trivial = converted plain-pattern rule with a domain list, non-default types/party, or an anchor.".into();
+    ctx.rule = "debug-mode FilterSets of 1-12 lines (1 in 25: 40-540 lines) from the network and cosmetic generators plus pools biased to: non-ASCII / malformed / mixed if+unless domains in domain= and from= (incl. generated labels over characters whose case mapping changes UTF-8 length: U+212A, U+0130, U+1E9E, U+023A, U+2126, U+01C5, ligatures), '$' inside patterns and regexes, scheme-only patterns with negated types, hostname wildcards, every resource-type subset (bit pattern), match-case, entity / negated / regex / non-ASCII cosmetic locations, rules the exporter must refuse (redirect, csp, generichide, removeparam, badfilter, full regex). Validity predicates on the output: no panic; all strings ASCII; url-filter accepted by a recogniser of Safari's regex subset; never both if-domain and unless-domain; no non-ignore rule after an ignore-previous-rules rule; filters_used == the lines (network first, then cosmetic, in order) whose individual conversion succeeds, and the number of emitted rules equals the sum of their outputs (+1 first-party-document rule iff a network rule converted); inclusion: for patterns without * and ^, every generated URL the rule matches (5 request types x 2 sources) is matched by the emitted url-filter. Non-trivial = converted plain-pattern rule with a domain list, non-default types/party, or an anchor.".into();
     ctx.assumptions = vec![
         "set-level output is compared with the library's own per-rule conversion (CbRuleEquivalent::try_from); the predicates on each emitted rule are independent".into(),
         "inclusion URLs carry no userinfo and no port".into(),
